@@ -856,3 +856,26 @@ def same_value(a, b):
         return z3.BoolVal(bool(a == b) or a is b)
     except Exception:
         return z3.BoolVal(a is b)
+
+
+_MODEL_NAMES = ("SymList", "SymDiGraph", "LazyIdMap", "SArr", "SInt", "SReal", "SBool", "SStr", "SymDict", "_NodeView",
+                "_EdgeView")
+
+
+def reraise_model_gap(exc):
+    """A TypeError / AttributeError / NotImplementedError that comes from a MODEL object lacking an operation (its message
+    names a model class, or it is raised inside sx/) is a gap of the modelled API, not behaviour of funtracks: the path is
+    unsupported (=> the run is inconclusive and the concrete fall-back may still decide it), never a 'refused edit'."""
+    if not isinstance(exc, (TypeError, AttributeError, NotImplementedError)):
+        return
+    msg = str(exc)
+    hit = any(("'" + n + "'") in msg or (n + " object") in msg for n in _MODEL_NAMES)
+    tb = exc.__traceback__
+    last = None
+    while tb is not None:
+        last = tb
+        tb = tb.tb_next
+    if last is not None and "/sx/" in last.tb_frame.f_code.co_filename.replace("\\", "/"):
+        hit = True
+    if hit:
+        raise Unsupported(f"operation outside the modelled API: {type(exc).__name__}: {msg}") from exc
